@@ -482,12 +482,31 @@ def thread_alive_report(ctx, where):
     emit('thread.alive', test=ctx, where=where, alive=sorted(alive))
 
 
+def _world_threads_running():
+    """Is a thread started by start_thread() still executing its body?
+    (recognised by the code object at the bottom of its stack, not by its
+    ident: idents are recycled)"""
+    for fr in list(sys._current_frames().values()):
+        while fr.f_back is not None:
+            fr = fr.f_back
+        if fr.f_code.co_name == 'body' and \
+                fr.f_code.co_filename == __file__:
+            return True
+    return False
+
+
 def release_all_threads():
     for key in list(_thread_events):
         release_thread(key, wait_gone=False)
     for rec in _thread_events.values():
         if rec['thread'] is not None:
             rec['thread'].join(5)
+    # low-level threads cannot be joined: wait until none of them is left,
+    # otherwise a dying thread of this run is part of the next run's
+    # "threads that existed before the test" and lends its ident to it
+    deadline = time.monotonic() + 5
+    while _world_threads_running() and time.monotonic() < deadline:
+        time.sleep(0.001)
     _thread_events.clear()
 
 
